@@ -313,6 +313,8 @@ Section Model.
     (r', {| dname := fst m; dparams := firstn np vs; dvariadic := svariadic (snd m);
             dreturns := skipn np vs; dscope0 := s; dscope := s |}).
 
+  Definition dvars (d : mdata) : list var_ := dparams d ++ dreturns d.
+
   Definition resolve_collisions (d : mdata) : mdata :=
     let '(s', vs) := resolve_names (dscope0 d) (dparams d ++ dreturns d) in
     let np := length (dparams d) in
@@ -494,3 +496,56 @@ Section Resolve.
     | RUnion ts => option_map TUnion (items ts)
     end.
 End Resolve.
+
+(* ---------------------------------------------------------------------------------- *)
+(* Guards: the scoping side conditions under which the denotation theorems hold         *)
+(* ---------------------------------------------------------------------------------- *)
+(* the Go file that imports exactly the reported imports under the reported qualifiers *)
+Definition file_env (dstp : str) (f : fdata) (local tps sh : list str) : env :=
+  {| e_imports := f_imports f; e_dst := dstp; e_local := local; e_tparams := tps; e_shadow := sh |}.
+
+Section Guard.
+  Variable cx : ctx.
+  Variable E : env.
+  Variable inp : bool.
+
+  (* what must hold of one reference made by the SOURCE type for the bare identifier / the
+     qualifier to mean in the destination file what it meant in the source:
+       - predeclared names are not shadowed by type parameters, imports, package-level
+         declarations of the destination package or variables;
+       - a type of the destination package itself (in-package) is declared there, and is
+         not shadowed by a type parameter, an import or a variable;
+       - the qualifier chosen for a package is not shadowed by a type parameter, a
+         package-level declaration or a variable, and the package has a name;
+       - a type parameter is among the type parameters in scope (the names offered by
+         TypeConstraint) and is not shadowed by a variable. *)
+  Definition ref_guard (qf : str -> str) (r : ref) : bool :=
+    match r with
+    | RefTParam n => negb (smem n (e_shadow E)) && smem n (e_tparams E)
+    | RefObj None n =>
+        negb (smem n (e_shadow E)) && negb (smem n (e_tparams E)) &&
+        negb (smem n (map qualifier (e_imports E))) && negb (smem n (e_local E))
+    | RefObj (Some p) n =>
+        if seqb p (e_dst E) && inp
+        then negb (smem n (e_shadow E)) && negb (smem n (e_tparams E)) &&
+             negb (smem n (map qualifier (e_imports E))) && smem n (e_local E)
+        else negb (is_nil (pkg_name cx p)) &&
+             negb (smem (qf p) (e_shadow E)) && negb (smem (qf p) (e_tparams E)) && negb (smem (qf p) (e_local E))
+    end.
+
+  Definition var_guard (v : var_) : bool := forallb (ref_guard (qual_of (vimps v))) (refs (vty v)).
+End Guard.
+
+(* identifiers that the rendered type of a variable uses WITHOUT a qualifier *)
+Definition bare_idents (v : var_) : list str :=
+  flat_map (fun r => match r with
+                     | RefTParam n => [n]
+                     | RefObj None n => [n]
+                     | RefObj (Some p) n => if is_nil (qual_of (vimps v) p) then [n] else []
+                     end) (refs (vty v)).
+
+(* known-finding class C14-name-captures-inner-type: no offered parameter/result name equals
+   a bare identifier used by a type of the same signature.  (For a type that IS a bare
+   identifier the code guarantees it; inside composite types it does not.) *)
+Definition capture_free (d : mdata) : bool :=
+  forallb (fun v => forallb (fun x => negb (smem x (map vname (dvars d)))) (bare_idents v)) (dvars d).
